@@ -14,7 +14,7 @@ LEVEL_TEXT = ('Lean 4 theorems over tables regenerated from radiometry.py (decim
               'identities of rational functions in flux, wave, H, C; Spectrum.to preserves the trapezoid integral of a density and '
               'the values of a unitless spectrum, composes and round-trips; exitance = pi x radiance and Planck unit-independence between Gen.planckExitance and Gen.planckRadiance, each translated from its own source function, '
               'with exp uninterpreted; flux-unit composition and the multi-argument to() loop (model applyTo) at spectrum level; Spectrum.to\'s per-sample steps (which of wave/value is multiplied or divided by which factor, the metre detour of flux conversion) are regenerated as Gen.toStep* and the model is defined through them (bridge lemmas toWave_eq/toFlux_eq); a converted grid stays valid (toWave_valid). Partial: Wien peak and Stefan-Boltzmann total are checked numerically only.')
-LEVEL_NOTE = ('partial: the clauses "peaks where Wien\'s law says" and "integrates to the Stefan-Boltzmann total" have no theorem '
+LEVEL_NOTE = ('what the theorems establish: CONSISTENCY of the conversion tables (cocycle, identity, round trips) and of Spectrum.to/Planck with them, plus absolute anchors — wave_factor_absolute (every wavelength factor = ratio of hand-written SI sizes), flux_factor_absolute (photlam→wlam = f·h·c/λ, wlam↔flam = 10³), constants_near_codata (H, C, K within 1e-6 of CODATA 2018), planck_closed_form (the translated functions are 2hc²/(λ⁵(e^{hc/λkT}−1)) and 2π·…); exp itself is uninterpreted, so the unit-independence theorems hold for any function of λ[m] and T in its place. partial: the clauses "peaks where Wien\'s law says" and "integrates to the Stefan-Boltzmann total" have no theorem '
               '(they need d/dλ of Planck\'s law and ∫x³/(eˣ−1)=π⁴/15); they are evaluated numerically on the implementation in every '
               'run. Trusted: tools/specs/c14.py (if-chain/literal reader), np.exp, np.trapz as Σ Δx·(y₀+y₁)/2.')
 TECHNIQUE = 'Lean 4 proof (norm_num/field_simp/ring over generated tables, induction on lists) + differential correspondence at ℚ and Float'
